@@ -397,6 +397,10 @@ class Run:
                 self._last_order = o
                 return "created"
             if k == "bbegin":
+                if state.get("t") is not None:
+                    # a script that opens a block while one is open leaves the first one first (as nested `with` blocks would
+                    # on the way out; the model does the same)
+                    state.pop("t").__exit__(None, None, None)
                 state["t"] = market.transaction(client=self.clients[a[1]])
                 state["t"].__enter__()
                 return "begin"
